@@ -105,14 +105,18 @@ class FilReader(Filterbank):
         if start < 0 or start + nsamps > self.header.nsamples:
             msg = f"requested block is out of range: start={start}, nsamps={nsamps}"
             raise ValueError(msg)
+        # nearest channel: the quotient of doubles can fall just below the integer
+        chan_start = round(float((fch1 - self.header.fch1) / self.header.foff))
+        if chan_start < 0 or chan_start + nchans > self.header.nchans:
+            # the header of the block must describe the rows that are returned
+            msg = f"requested block is out of range: fch1={fch1}, nchans={nchans}"
+            raise ValueError(msg)
 
         self._file.seek(start * self.samp_stride)
         data = self._file.cread(self.header.nchans * nsamps)
         nsamps_read = data.size // self.header.nchans
         data = data.reshape(nsamps_read, self.header.nchans).transpose()
 
-        # nearest channel: the quotient of doubles can fall just below the integer
-        chan_start = round(float((fch1 - self.header.fch1) / self.header.foff))
         data_block = data[chan_start : chan_start + nchans]
         start_mjd = self.header.mjd_after_nsamps(start)
         new_header = self.header.new_header(
@@ -317,6 +321,12 @@ class PFITSReader(Filterbank):
         if start < 0 or start + nsamps > self.header.nsamples:
             msg = f"requested block is out of range: start={start}, nsamps={nsamps}"
             raise ValueError(msg)
+        # nearest channel: the quotient of doubles can fall just below the integer
+        chan_start = round(float((fch1 - self.header.fch1) / self.header.foff))
+        if chan_start < 0 or chan_start + nchans > self.header.nchans:
+            # the header of the block must describe the rows that are returned
+            msg = f"requested block is out of range: fch1={fch1}, nchans={nchans}"
+            raise ValueError(msg)
 
         startsub, startsamp = divmod(start, self.sub_hdr.subint_samples)
         # sub-integrations covering [start, start + nsamps), which need not start
@@ -328,8 +338,6 @@ class PFITSReader(Filterbank):
         data = data[startsamp : startsamp + nsamps]
         data = data.reshape(nsamps, self.header.nchans).transpose()
 
-        # nearest channel: the quotient of doubles can fall just below the integer
-        chan_start = round(float((fch1 - self.header.fch1) / self.header.foff))
         data_block = data[chan_start : chan_start + nchans]
         start_mjd = self.header.mjd_after_nsamps(start)
         new_header = self.header.new_header(
